@@ -46,6 +46,8 @@ structure TblOK (t : Tbl) : Prop where
   hashesRequired : FileId.hashes ∈ t.required
   infraRequired : FileId.infra ∈ t.required
   tsExact : t.tsExact = true
+  /-- the hashed view determines every defining input -/
+  viewInj : ∀ (k : Input) (a b : Nat), t.view k a = t.view k b → a = b
   freshOps : t.freshOps = safeIOps
   regenOps : t.regenOps = safeIOps
   emisRegen : t.emisRegen = safePhases
@@ -58,7 +60,7 @@ def Tbl.okB (t : Tbl) : Bool :=
   && t.hashedFresh.all (fun p => t.compared.contains p)
   && t.compared.all (fun p => t.hashedFresh.contains p)
   && t.required.contains .count && t.required.contains .hashes && t.required.contains .infra
-  && t.tsExact
+  && t.tsExact && t.hashWholeFile && !t.vwKeysRemoved && !t.progKeysRemoved
   && decide (t.freshOps = safeIOps) && decide (t.regenOps = safeIOps)
   && decide (t.emisRegen = safePhases) && decide (t.emisExtend = safePhases)
 
@@ -68,29 +70,37 @@ theorem Input.mem_all (i : Input) : i ∈ Input.all := by
 theorem Tbl.ok_of_okB (t : Tbl) (h : t.okB = true) : TblOK t := by
   simp only [Tbl.okB, Bool.and_eq_true, decide_eq_true_eq, List.all_eq_true, List.any_eq_true,
     List.contains_iff_mem, beq_iff_eq] at h
-  obtain ⟨⟨⟨⟨⟨⟨⟨⟨⟨⟨⟨⟨h1, h2⟩, h3⟩, h4⟩, h5⟩, h6⟩, h6a⟩, h6b⟩, h6c⟩, h7⟩, h8⟩, h9⟩, h10⟩ := h
-  refine ⟨h1, h2, ?_, h4, h5, h6, h6a, h6b, h6c, h7, h8, h9, h10⟩
+  obtain ⟨⟨⟨⟨⟨⟨⟨⟨⟨⟨⟨⟨⟨⟨⟨h1, h2⟩, h3⟩, h4⟩, h5⟩, h6⟩, h6a⟩, h6b⟩, h6c⟩, v1⟩, v2⟩, v3⟩, h7⟩, h8⟩, h9⟩, h10⟩ := h
+  refine ⟨h1, h2, ?_, h4, h5, h6, h6a, h6b, h6c, ?_, h7, h8, h9, h10⟩
+  rotate_left
+  · intro k a b hab
+    have v2' : t.vwKeysRemoved = false := by simpa using v2
+    have v3' : t.progKeysRemoved = false := by simpa using v3
+    cases k <;> simpa [Tbl.view, v1, v2', v3'] using hab
   intro i
   obtain ⟨p, hp, e⟩ := h3 i (Input.mem_all i)
   exact ⟨p.1, by cases p; simp_all⟩
 
+theorem viewVV_get (t : Tbl) (vv : VV) (i : Input) : (t.viewVV vv).get i = t.view i (vv.get i) := by
+  cases i <;> rfl
+
 theorem match_self (t : Tbl) (ok : TblOK t) (vv : VV) :
-    hashesMatch t (storeOf t.hashedFresh vv) vv = true := by
+    hashesMatch t (storeOf t.hashedFresh (t.viewVV vv)) vv = true := by
   simp only [hashesMatch, List.all_eq_true]
   intro p hp
-  have := lookup_storeOf t.hashedFresh vv p.1 p.2 ok.nodup (ok.comparedHashed p hp)
+  have := lookup_storeOf t.hashedFresh (t.viewVV vv) p.1 p.2 ok.nodup (ok.comparedHashed p hp)
   simp [this]
 
 theorem match_inj (t : Tbl) (ok : TblOK t) (vv vv' : VV)
-    (h : hashesMatch t (storeOf t.hashedFresh vv) vv' = true) : vv = vv' := by
+    (h : hashesMatch t (storeOf t.hashedFresh (t.viewVV vv)) vv' = true) : vv = vv' := by
   apply VV.ext_get
   intro i
   obtain ⟨k, hk⟩ := ok.defining i
   simp only [hashesMatch, List.all_eq_true] at h
   have h1 := h (k, i) (ok.hashedCompared _ hk)
-  have h2 := lookup_storeOf t.hashedFresh vv k i ok.nodup hk
-  simp only [h2] at h1
-  simpa using h1
+  have h2 := lookup_storeOf t.hashedFresh (t.viewVV vv) k i ok.nodup hk
+  simp only [h2, viewVV_get] at h1
+  exact ok.viewInj i _ _ (by simpa using h1)
 
 /-! ### steps -/
 
@@ -287,12 +297,12 @@ theorem instPhases_safe (g : Gen) (lo n : Nat) :
 theorem regen_spec (t : Tbl) (w : Bool) (ok : TblOK t) (vv : VV) (gid n : Nat) (d1 : Disk) (b : Bool)
     (hb : b = d1.count.present) :
     ChainOk t w d1 ((if b then [Step.rm .count] else []) ++
-        [.wrHashes (storeOf t.hashedFresh vv), .wrInfra ⟨vv, gid⟩] ++
+        [.wrHashes (storeOf t.hashedFresh (t.viewVV vv)), .wrInfra ⟨vv, gid⟩] ++
         (emisLoop ⟨vv, gid⟩ 0 n ++ [.wrCount n])) ∧
     applyAll ((if b then [Step.rm .count] else []) ++
-        [.wrHashes (storeOf t.hashedFresh vv), .wrInfra ⟨vv, gid⟩] ++
+        [.wrHashes (storeOf t.hashedFresh (t.viewVV vv)), .wrInfra ⟨vv, gid⟩] ++
         (emisLoop ⟨vv, gid⟩ 0 n ++ [.wrCount n])) d1 =
-      { d1 with hashes := .ok (storeOf t.hashedFresh vv), infra := .ok ⟨vv, gid⟩,
+      { d1 with hashes := .ok (storeOf t.hashedFresh (t.viewVV vv)), infra := .ok ⟨vv, gid⟩,
                 emis := fun j => if j < n then .ok ⟨vv, gid⟩ else d1.emis j, count := .ok n } := by
   have hcount : ∀ c, (applyAll (if b then [Step.rm .count] else []) d1).count ≠ .ok c := by
     intro c
@@ -302,11 +312,11 @@ theorem regen_spec (t : Tbl) (w : Bool) (ok : TblOK t) (vv : VV) (gid n : Nat) (
       have := FileSt.present_false _ hb.symm
       simp [this]
   have hrest : ∀ (d2 : Disk), (∀ c, d2.count ≠ .ok c) →
-      ChainOk t w d2 ([.wrHashes (storeOf t.hashedFresh vv), .wrInfra ⟨vv, gid⟩] ++
+      ChainOk t w d2 ([.wrHashes (storeOf t.hashedFresh (t.viewVV vv)), .wrInfra ⟨vv, gid⟩] ++
         (emisLoop ⟨vv, gid⟩ 0 n ++ [.wrCount n])) ∧
-      applyAll ([.wrHashes (storeOf t.hashedFresh vv), .wrInfra ⟨vv, gid⟩] ++
+      applyAll ([.wrHashes (storeOf t.hashedFresh (t.viewVV vv)), .wrInfra ⟨vv, gid⟩] ++
         (emisLoop ⟨vv, gid⟩ 0 n ++ [.wrCount n])) d2 =
-        { d2 with hashes := .ok (storeOf t.hashedFresh vv), infra := .ok ⟨vv, gid⟩,
+        { d2 with hashes := .ok (storeOf t.hashedFresh (t.viewVV vv)), infra := .ok ⟨vv, gid⟩,
                   emis := fun j => if j < n then .ok ⟨vv, gid⟩ else d2.emis j, count := .ok n } := by
     intro d2 h2
     constructor
@@ -409,7 +419,7 @@ theorem mid_spec (t : Tbl) (w : Bool) (ok : TblOK t) (vv : VV) (gid n : Nat) (fo
     (h3 : emisStage t n hfe mem d = some s3) :
     MidPost t w vv n { d with seeds := x } (s2 ++ s3) mem := by
   have regen : ∀ (hashed : List (String × Input)) (ops : List IOp), hashed = t.hashedFresh →
-      ops = safeIOps → s2 = instIOps ops (storeOf hashed vv) ⟨vv, gid⟩ d → mem = ⟨vv, gid⟩ →
+      ops = safeIOps → s2 = instIOps ops (storeOf hashed (t.viewVV vv)) ⟨vv, gid⟩ d → mem = ⟨vv, gid⟩ →
       hfe = false → MidPost t w vv n { d with seeds := x } (s2 ++ s3) mem := by
     intro hashed ops e1 e2 e3 e4 e5
     subst e1 e2 e3 e4 e5
